@@ -114,6 +114,7 @@ func runShard(self string, ck *Check, tier string, seed int64, shard, nshards in
 		case 4:
 			kind = "heap limit exceeded"
 		case 6:
+			attempt += 3 // each of these costs a minute of waiting: four of them per shard are enough
 			kind = "the check had to stop the worker"
 			for _, l := range strings.Split(string(logb), "\n") {
 				if strings.HasPrefix(l, "ABORT ") {
